@@ -116,7 +116,7 @@ func CheckC09(run *evid.Run) {
 	total := pick(run.Tier, 800, 6000)
 	run.Rule = "seeded histories (C01 generator incl. refused operations and forks in every other history, pointer counts up to 64 so that reference links exist; a quarter written and read back with the link-encrypting codec); no-length-limit is expressed by no limit or by the conventional -1; at seeded states (all states in thorough) each replica is rebuilt without limit through all four loaders (manifest, JSON head list, head entries, single head hash when single-headed) against the gated store: concurrency in {1,2,3,8,32} x release policy in {fifo, lifo, random, heads-last, oldest-first, newest-first} plus ungated runs; id, entry set, heads and (when the ordering is total) value sequence must equal the source replica's observation. Evidence counts distinct realised completion orders (digest of the get-return sequence). thorough runs in race-instrumented child processes. Non-trivial = state with >=2 heads or >=8 entries reloaded under a gated policy; distinct = (history shape digest, loader, concurrency, policy)"
 	run.Assumptions = []string{"arrival order is varied by parking Get calls and releasing them one at a time; timing only decides which order is realised, never a verdict"}
-	runCases(run, "C09", total, run.Tier == "thorough", true, ChildOpts{})
+	runCases(run, "C09", total, true, run.Tier == "thorough", ChildOpts{})
 }
 
 func init() { registerCases("C09", c09Case) }
